@@ -42,6 +42,13 @@ TokenChunks == {<<"a">>, <<DQ, "a", DQ>>, <<DQ, BS, BS, DQ>>, <<SL, "a", SL>>, <
 TokenChunksCore == {<<"a">>, <<DQ, "a", DQ>>, <<DQ, BS, BS, DQ>>, <<SL, "a", SL>>, <<COL>>, <<LP>>, <<RP>>, <<SP>>,
                     <<SP, "O", "R", SP>>, <<DASH>>, <<AT>>, <<"a", COL, "a">>}
 
+\* Semantic exploration: the terms the documented rules reject (.config as a filter key, the empty key;
+\* .unit as a projection key) in every position among well-formed terms and operators.
+SemAlphabet == FullAlphabet \cup {".", "c", "o", "n", "f", "i", "g", "u", "t"}
+SemChunks == {<<".", "c", "o", "n", "f", "i", "g", COL, "a">>, <<DQ, DQ, COL, "a">>, <<"a", COL, "a">>,
+              <<".", "u", "n", "i", "t">>, <<"a">>, <<COM>>,
+              <<SP>>, <<SP, "O", "R", SP>>, <<DASH>>, <<LP>>, <<RP>>}
+
 IsOp(c)      == c \in {LP, RP, COL, AT, COM}
 IsStartOp(c) == IsOp(c) \/ c \in {DASH, STAR}
 IsSpace(c)   == c = SP
